@@ -361,6 +361,7 @@ func check(prop string, pc propConf, tier string) int {
 		trouble []string
 		crashes []RunResult
 		next    int
+		retried int
 		thirdParty = map[string]int{}
 	)
 	deadline := time.Now().Add(budget)
@@ -385,14 +386,33 @@ func check(prop string, pc propConf, tier string) int {
 				if *fMode != "" {
 					args = append(args, "-mode", *fMode)
 				}
-				cmd := b.worker(1, args...)
-				var eb bytes.Buffer
-				cmd.Stderr = &eb
-				cmd.Stdout = &eb
-				err := cmd.Run()
-				var s Summary
-				ob, rerr := os.ReadFile(out)
-				okSum := rerr == nil && json.Unmarshal(bytes.TrimSpace(ob), &s) == nil && s.Prop == prop
+				var (
+					eb    bytes.Buffer
+					err   error
+					s     Summary
+					rerr  error
+					okSum bool
+				)
+				for attempt := 0; attempt < 2; attempt++ {
+					// a worker that dies of the wall-clock watchdog or is killed (an overloaded machine) gets one more
+					// try in a fresh process: runs are deterministic, so a genuine hang dies again and is reported
+					eb.Reset()
+					os.Remove(out)
+					s = Summary{}
+					cmd := b.worker(1, args...)
+					cmd.Stderr = &eb
+					cmd.Stdout = &eb
+					err = cmd.Run()
+					var ob []byte
+					ob, rerr = os.ReadFile(out)
+					okSum = rerr == nil && json.Unmarshal(bytes.TrimSpace(ob), &s) == nil && s.Prop == prop
+					if okSum || !(strings.Contains(eb.String(), "WATCHDOG") || strings.Contains(fmt.Sprint(err), "signal: killed")) {
+						break
+					}
+					mu.Lock()
+					retried++
+					mu.Unlock()
+				}
 				raceExit := false
 				if ee, ok := err.(*exec.ExitError); ok && (ee.ExitCode() == 66 || (ee.ExitCode() == 1 && strings.Contains(eb.String(), "race detected during execution of test"))) {
 					// the race detector reported something: the test binary exits non-zero although every run completed
@@ -471,6 +491,9 @@ func check(prop string, pc propConf, tier string) int {
 			total.Samples = append(total.Samples, s.Samples...)
 		}
 		viols = append(viols, s.Violations...)
+	}
+	if retried > 0 {
+		total.Notes["worker-chunk-retried-after-watchdog-or-kill"] += retried
 	}
 	for k, v := range thirdParty {
 		total.Notes["data-race-report-wholly-in-third-party-code:"+k] += v
